@@ -69,6 +69,10 @@ func component(r Req) templ.Component {
 const ehBody = "handled-error-body"
 
 func handler(r Req, sawErr *error) http.Handler {
+	return handlerFor(r, component(r), sawErr)
+}
+
+func handlerFor(r Req, comp templ.Component, sawErr *error) http.Handler {
 	opts := []func(*templ.ComponentHandler){}
 	if r.Status != 0 {
 		opts = append(opts, templ.WithStatus(r.Status))
@@ -97,7 +101,7 @@ func handler(r Req, sawErr *error) http.Handler {
 			})
 		}))
 	}
-	return templ.Handler(component(r), opts...)
+	return templ.Handler(comp, opts...)
 }
 
 func doc(r Req) string { return strings.Join(r.Chunks, "") }
@@ -143,6 +147,16 @@ func decide(c Case) error {
 		if err != nil {
 			return fmt.Errorf("request %d: %v", i, err)
 		}
+		if err := judge(i, r, got, sawErr); err != nil {
+			return err
+		}
+	}
+	return nil
+}
+
+// judge decides one response.
+func judge(i int, r Req, got resp, sawErr error) error {
+	for once := true; once; once = false {
 		ct := r.CT
 		if ct == "" {
 			ct = "text/html; charset=utf-8"
@@ -153,7 +167,7 @@ func decide(c Case) error {
 			if !fails(r) && got.body != d {
 				return fmt.Errorf("request %d (streaming, no failure): body %q, want %q", i, clip(got.body), clip(d))
 			}
-			continue
+			return nil
 		}
 		if !fails(r) {
 			want := r.Status
@@ -163,7 +177,7 @@ func decide(c Case) error {
 			if got.code != want || got.ct != ct || got.body != d {
 				return fmt.Errorf("request %d (success): status %d content-type %q body %q; want %d %q %q", i, got.code, got.ct, clip(got.body), want, ct, clip(d))
 			}
-			continue
+			return nil
 		}
 		// buffered failure
 		if strings.ContainsAny(got.body, "ABCDEFGHIJKLMNOPQRSTUVWXYZ0123456789<>/") {
